@@ -865,6 +865,48 @@ func (w *wworld) logViolate(sig, what string, replay interface{}) {
 	}
 }
 
+// checkOthersUntouched: an exchange about one datatype leaves the documents and the stored operations of every other
+// datatype exactly as they were (C17)
+func (w *wworld) checkOthersUntouched(before, after dbView, duidReq, duidResp, key string) {
+	mine := func(du string) bool { return du == duidReq || du == duidResp }
+	index := func(v dbView) (map[string]string, map[string]string) {
+		ops, dts := map[string]string{}, map[string]string{}
+		for _, o := range v.ops {
+			if du, _ := bget(o, "duid").(string); !mine(du) {
+				ops[bget(o, "_id").(string)] = fmt.Sprint(o)
+			}
+		}
+		for _, d := range v.dts {
+			if du, _ := bget(d, "_id").(string); !mine(du) {
+				if k, _ := bget(d, "key").(string); k != key { // the datatype of this key may have been found by key under another DUID
+					dts[du] = fmt.Sprint(d)
+				}
+			}
+		}
+		return ops, dts
+	}
+	ob, db := index(before)
+	oa, da := index(after)
+	for id, o := range ob {
+		if oa[id] != o {
+			w.c.Violate("C17", "other-datatype-operations-changed", fmt.Sprintf("an exchange about key %q (DUID %s) removed or changed the stored operation %s of another datatype", key, duidReq, id), w.desc)
+			return
+		}
+	}
+	for id := range oa {
+		if _, had := ob[id]; !had {
+			w.c.Violate("C17", "other-datatype-operations-changed", fmt.Sprintf("an exchange about key %q (DUID %s) stored the operation %s under another datatype", key, duidReq, id), w.desc)
+			return
+		}
+	}
+	for id, d := range db {
+		if da[id] != d {
+			w.c.Violate("C17", "other-datatype-document-changed", fmt.Sprintf("an exchange about key %q (DUID %s) changed the document of datatype %s", key, duidReq, id), w.desc)
+			return
+		}
+	}
+}
+
 func (w *wworld) checkLog(v dbView) {
 	type od struct {
 		sseq, seq uint64
@@ -1211,6 +1253,7 @@ func (w *wworld) sync(x *wdt, fault int) {
 	after := w.dbDigest()
 	w.checkLog(after)
 	w.checkSnapshots()
+	w.checkOthersUntouched(before, after, pack.DUID, resp.DUID, x.key)
 	pubG, pubs := w.pubsSince(pubsBefore)
 	// C18: one publish iff at least one operation was stored
 	stored := strings.Count(logPrefix(after), "\nO|") - strings.Count(logPrefix(before), "\nO|") // operations within the recorded logs
@@ -1552,10 +1595,24 @@ func (w *wworld) raw(x *wdt) {
 	rng := w.c.Rng
 	what := ""
 	noCP := false
-	switch rng.Intn(15) {
+	switch rng.Intn(17) {
 	case 14:
 		noCP = true
 		what = "no checkpoint"
+	case 15, 16:
+		// a create (or subscribe-or-create) under a key of its own that carries the DUID of a datatype of ANOTHER collection
+		for _, o := range w.dts {
+			if o.owner.col != x.owner.col && o.rep.dt.GetState() == model.StateOfDatatype_SUBSCRIBED {
+				pack.DUID = o.rep.dt.GetDUID()
+				pack.Key = fmt.Sprintf("fk%d", rng.Intn(1000))
+				pack.Option = uint32(model.PushPullBitCreate)
+				if rng.Intn(2) == 0 {
+					pack.Option |= uint32(model.PushPullBitSubscribe)
+				}
+				what = fmt.Sprintf("create with the DUID of dt%d of collection %s", o.idx, o.owner.col)
+				break
+			}
+		}
 	case 0:
 		pack.Option |= uint32(model.PushPullBitReadOnly)
 		what = "read-only bit"
